@@ -403,7 +403,10 @@ class RescaleToBounds(Reparameterisation):
             logger.debug("Disabling prime prior with post-rescaling")
             self.has_prime_prior = False
 
-            if post_rescaling in ["logit", "log"]:
+            if isinstance(post_rescaling, str) and post_rescaling.lower() in [
+                "logit",
+                "log",
+            ]:
                 if self._update:
                     raise RuntimeError(
                         "Cannot use log or logit with update bounds"
